@@ -84,7 +84,8 @@ def ports_oracle(case, obs):
                 for rec in holds[T]:
                     o = rec[4]
                     when = [tt for (rp, cd, tt) in rst_watch[T] if o.get("key") and o["key"][0] == rp and o["key"][1] == cd]
-                    if o["t"] == "stream" and not o.get("out") and tuple(o["key"]) not in present and when:
+                    # (an outgoing stream with the same 4-tuple is reset as well: the entry is keyed by the pair)
+                    if o["t"] == "stream" and tuple(o["key"]) not in present and when:
                         end = max(min(when), rec[0] + 1)
                         if rec[1] is None or rec[1] > end:
                             rec[1] = end
